@@ -207,6 +207,68 @@ def make_trace(ctx, tid, case, net, k):
     return {"tid": tid, "species": species, "ev": ev, "case": case}
 
 
+# the host code's species list and the cooling library's sub-list (the first twelve), as the patch templates assume them
+HOST_SPECIES = ["e-", "H", "H+", "He", "He+", "He++", "H-", "H2", "H2+", "D", "D+", "HD", "C", "C+", "O", "O+", "Si", "Si+", "Si++", "CH", "CH2", "CH3+", "C2",
+                "CO", "HCO+", "OH", "H2O", "O2"]
+FOREIGN_SPECIES = ["N", "NH", "NH3", "CS", "H3+", "O-", "N2", "HCN", "CH4", "S", "SO", "C-"]
+
+
+def patch_species(ctx: Ctx, rng: random.Random, cov: dict):
+    """PatchSpecies.tla: which network species get a new field type in the simulation-code patch, and the species count"""
+    from naunet.network import Network
+    from naunet.patches import patch_factory
+    from naunet.reactions.reaction import Reaction
+    from naunet.reactiontype import ReactionType
+    from naunet.species import Species
+    r = run_tlc("MC_PatchSpecies.tla", "MC_PatchSpecies.cfg", ctx.sub("meta") / "ps", workers=4)
+    require_clean_mc(r, "MC_PatchSpecies")
+    if r["error"]:
+        ctx.violation(f"C09|Design|Patch|{','.join(r['violated'])}", "TLC counterexample in PatchSpecies", {"tlc": r["out"][-3000:]})
+    c = ctx.scratch / "ps_v.cfg"
+    c.write_text(open("/verif/spec/MC_PatchSpecies.cfg").read().replace('"asis"', '"by_name"'))
+    if "NoFieldForPredefinedClass" not in run_tlc("MC_PatchSpecies.tla", str(c), ctx.sub("meta") / "ps_v", workers=2)["violated"]:
+        raise MachineryError("design variant by_name of PatchSpecies not caught")
+    cls = {n: (i + 1, 0) for i, n in enumerate(HOST_SPECIES)}
+    cls.update({"E": (1, 1), "E-": (1, 2)})
+    cls.update({n: (29 + i, 0) for i, n in enumerate(FOREIGN_SPECIES)})
+    traces = []
+    for k in range(12 if ctx.quick else 200):
+        Species.reset()
+        names = rng.sample(HOST_SPECIES[1:], rng.randint(2, 6)) + rng.sample(FOREIGN_SPECIES, rng.randint(0, 4))
+        if rng.random() < 0.8:
+            names.append(rng.choice(["e-", "E", "E-", "E", "E-"]))
+        rng.shuffle(names)
+        reacs = [Reaction([a], [b], alpha=1e-10, reaction_type=ReactionType.GAS_TWOBODY) for a, b in zip(names, names[1:] + names[:1])]
+        ev = {"ok": True, "fields": [], "numbers": [], "undefined": -1, "nspecies": -1, "err": ""}
+        species = []
+        try:
+            net = Network(reacs)
+            species = [{"c": cls[x.name][0], "s": cls[x.name][1]} for x in net.species]
+            pos = {x.alias: i + 1 for i, x in enumerate(net.species)}
+            d = ctx.scratch / "ps" / str(k)
+            with quiet():
+                patch_factory("enzo", "cpu", None).render(net, templates=["typedefs.h.j2", "naunet_enzo.h.j2"], path=d)
+            td = creader.strip_comments((d / "typedefs.h").read_text())
+            new = [(m.group(1), int(m.group(2))) for m in re.finditer(r"\b(\w+?)Density\s*=\s*(\d+)\s*,", td) if int(m.group(2)) >= 104]
+            ev["fields"] = [pos.get(a, 0) for a, _ in new]
+            ev["numbers"] = [n for _, n in new]
+            ev["undefined"] = int(re.search(r"FieldUndefined\s*=\s*(\d+)", td).group(1))
+            ev["nspecies"] = int(re.search(r"#define\s+ENZO_NSPECIES\s+(\d+)", creader.strip_comments((d / "naunet_enzo.h").read_text())).group(1))
+        except Exception as e:   # noqa
+            ev["ok"], ev["err"] = False, f"{type(e).__name__}: {str(e)[:120]}"
+        traces.append({"tid": k + 1, "species": species, "ev": [ev], "names": names})
+    Species.reset()
+    v = validate_traces(ctx, "Trace_PatchSpecies.tla", "Trace_PatchSpecies.cfg", [{k2: t[k2] for k2 in ("tid", "species", "ev")} for t in traces], "patchspecies")
+    cov["patch_networks"] = len(traces)
+    cov["patch_networks_accepted"] = v["accepted"]
+    by = {t["tid"]: t for t in traces}
+    for tid, rj in sorted(v["rejected"].items()):
+        tr = by[tid]
+        clause = (rj["clauses"] or ["NoEnabledAction"])[0]
+        ctx.violation(f"C09|Patch:{clause}|electron={'+'.join(sorted(x for x in tr['names'] if x in ('e-', 'E', 'E-'))) or 'none'}",
+                      f"simulation-code patch for species {tr['names']}: {tr['ev'][0]} : {rj['clauses']}", {"names": tr["names"], "event": tr["ev"][0], "species": tr["species"]})
+
+
 def main(ctx: Ctx) -> int:
     import_naunet()
     cov: dict = {"samples": []}
@@ -256,6 +318,7 @@ def main(ctx: Ctx) -> int:
         ctx.violation(f"C09|{clause}|{feat}", f"species {[s['name'] for s in tr['species']]} ({'incremental' if tr['case']['incremental'] else 'at once'}): "
                       f"event {e.get('kind', e['act'])} rejected: {rj['clauses']}; ids {[''.join(x) for x in e.get('ids', [])][:12]}",
                       {"case": tr["case"], "species": tr["species"], "event": e, "clauses": rj["clauses"]})
+    patch_species(ctx, rng, cov)
     if traces:
         t = traces[0]
         cov["samples"].append({"species": t["species"][:4], "events": [{k2: (e[k2] if k2 != "ids" else ["".join(x) for x in e[k2]]) for k2 in e if k2 in ("act", "kind", "ids", "slots", "ranks")} for e in t["ev"][:3]]})
